@@ -1,5 +1,5 @@
 """C12 -- a model's result does not depend on what happened earlier in the process."""
-from . import state, c06
+from . import state, c06, solveprog
 
 LEVEL = "other"
 EXPLANATION = ("Inventory of process-global mutable state of the core package (class-body counters / containers written through the class, "
@@ -15,6 +15,7 @@ def run(ctx):
     n = state.r_reset(ctx)
     v = state.r_verbose(ctx)
     state.r_determ(ctx)
+    solveprog.r_solve_program(ctx, {"verbosity"})
     c06.r_nomut(ctx, operands_only=True)   # null_point / null_expression are shared by every model: no operator (in-place ones included) writes to an operand
     state.r_memo(ctx, exits=False)  # module-level null objects (derived points / expressions) keep no value from an earlier model
     ctx.floor("class-level state cells", n, 8)
